@@ -81,7 +81,7 @@ def main():
             lines[m["line"] - 1] = new
             open(p, "w").write("\n".join(lines))
             m["before"], m["after"] = line.strip()[:160], new.strip()[:160]
-            rc, o = sh("CARGO_TARGET_DIR=%s/target timeout 300 cargo test --offline --workspace --lib --bins 2>&1 | tail -5" % W, cwd=W)
+            rc, o = sh("CARGO_TARGET_DIR=%s/target timeout 300 cargo test --offline --workspace --lib --bins 2>&1 | grep -E \"^test result|^error\" | head -5" % W, cwd=W)
             if "test result: ok. 42 passed" in o:
                 m["status"] = "survived"
                 fl = {}
